@@ -86,6 +86,20 @@ size_t HashBdh::getSize() {
   return mem;
 }
 
+void HashBdh::save(std::ostream &fp) {
+  // load() keeps one entry per stored key: write one entry per cell again,
+  // which is what every loader expects
+  LogSequence plain(hash->getNumbits(), tsize);
+  for (size_t i = 0; i < tsize; i++)
+    if (b_ht->access(i))
+      plain.setField(i, hash->getField(b_ht->rank1(i) - 1));
+
+  saveValue(fp, tsize);
+  saveValue(fp, n);
+  plain.save(fp);
+  b_ht->save(fp);
+}
+
 HashBdh *HashBdh::load(std::istream &fp) {
   HashBdh *h_new = new HashBdh();
 
